@@ -36,7 +36,7 @@ def _b2v(b):
 class TS:
     """Transition system of one elaborated design."""
 
-    def __init__(self, elaboratable, ports, name="top"):
+    def __init__(self, elaboratable, ports, name="top", env=None):
         ports = list(ports)
         self.ports = ports
         self.fragment = Fragment.get(elaboratable, None)
@@ -59,9 +59,17 @@ class TS:
             for sub, _n, _l in frag.subfragments:
                 walk(sub)
         walk(self.fragment)
+        self.driven = driven
         from amaranth.hdl._ir import PortDirection
-        plist = [(None, sgn, PortDirection.Output if id(sgn) in driven else PortDirection.Input)
-                 for sgn in ports]
+        if env is not None:
+            clash = [sgn.name for sgn in ports if id(sgn) in env and id(sgn) in driven]
+            if clash:
+                raise Unsupported(f"design drives signals the harness treats as environment inputs: {clash}")
+            plist = [(None, sgn, PortDirection.Input if id(sgn) in env else PortDirection.Output)
+                     for sgn in ports]
+        else:
+            plist = [(None, sgn, PortDirection.Output if id(sgn) in driven else PortDirection.Input)
+                     for sgn in ports]
         self.design = self.fragment.prepare(ports=plist, hierarchy=(name,))
         self.netlist = nl = build_netlist(self.design)
         self.cells = nl.cells
